@@ -80,12 +80,27 @@ func lifeCfg(m map[string]int64) *fosite.ClientLifespanConfig {
 	}
 }
 
-// the client object registered in the store: with a lifespan table when the case has one
+// hxClient is the client object registered in the store: fosite.DefaultClient plus the optional interfaces the histories
+// exercise: a lifespan table (when the case has one) and the response modes a client may ask for (all of them).
+type hxClient struct {
+	*fosite.DefaultClient
+	life *fosite.ClientLifespanConfig
+}
+
+func (c *hxClient) GetEffectiveLifespan(gt fosite.GrantType, tt fosite.TokenType, fallback time.Duration) time.Duration {
+	return (&fosite.DefaultClientWithCustomTokenLifespans{DefaultClient: c.DefaultClient, TokenLifespans: c.life}).GetEffectiveLifespan(gt, tt, fallback)
+}
+
+func (c *hxClient) GetResponseModes() []fosite.ResponseModeType {
+	return []fosite.ResponseModeType{fosite.ResponseModeDefault, fosite.ResponseModeQuery, fosite.ResponseModeFragment, fosite.ResponseModeFormPost}
+}
+
 func registered(dc *fosite.DefaultClient, c *HClient) fosite.Client {
-	if c.Life == nil {
-		return dc
+	hc := &hxClient{DefaultClient: dc}
+	if c.Life != nil {
+		hc.life = lifeCfg(c.Life)
 	}
-	return &fosite.DefaultClientWithCustomTokenLifespans{DefaultClient: dc, TokenLifespans: lifeCfg(c.Life)}
+	return hc
 }
 
 type HTok struct {
@@ -131,6 +146,8 @@ type HOp struct {
 	GrantSpelling string `json:"grant_spelling,omitempty"`
 	// decide: the application replaces the stored request's session by a new one of its own (no code expiry recorded in it)
 	FreshSession bool `json:"fresh_session,omitempty"`
+	// push / authorize_par: the response_mode parameter of the pushed request resp. of the query next to the request_uri
+	Mode string `json:"response_mode,omitempty"`
 	// advance
 	Ms int64 `json:"ms,omitempty"`
 	// setclient
@@ -437,6 +454,9 @@ func (w *world) exec(op *HOp) HObs {
 		if op.Method != "" {
 			q.Set("code_challenge_method", op.Method)
 		}
+		if op.Mode != "" && op.Kind != "authorize" {
+			q.Set("response_mode", op.Mode)
+		}
 		if op.Kind == "push" {
 			bc := q.Get("client_id")
 			req := w.postReq("/par", q, op.Auth)
@@ -468,6 +488,7 @@ func (w *world) exec(op *HOp) HObs {
 		for _, a := range op.GAud {
 			ar.GrantAudience(a)
 		}
+		requestedMode := ar.GetResponseMode() // before the handlers fill in the flow's default
 		resp, err := w.prov.NewAuthorizeResponse(ctx, ar, w.authSess(op.Subject))
 		if err != nil {
 			o.Err = errName(err)
@@ -483,6 +504,12 @@ func (w *world) exec(op *HOp) HObs {
 		if code := resp.GetCode(); code != "" {
 			w.issued = append(w.issued, issuedTok{"code", code})
 			o.Minted = append(o.Minted, "code")
+		}
+		if op.Kind == "authorize_par" {
+			// the response mode the answer will be written in (reported only when it is not the flow's default)
+			if requestedMode != fosite.ResponseModeDefault && requestedMode != fosite.ResponseModeQuery {
+				o.Scopes = []string{string(requestedMode)}
+			}
 		}
 	case "redeem", "refresh":
 		form := url.Values{}
@@ -876,7 +903,7 @@ func coqOp(op *HOp) string {
 	switch op.Kind {
 	case "authorize":
 		rt := map[string]string{"": "RCode", "code": "RCode", "token": "RToken", "code token": "RCodeToken"}[op.RType]
-		return fmt.Sprintf("OAuthorize (Build_authz %s %d %s %s %s %s %s %s %s %s)", rt, op.Client, Q(op.Redirect), QL(op.Scopes), QL(op.Granted),
+		return fmt.Sprintf("OAuthorize (Build_authz %s %d %s %s %s %s %s %s %s %s \"\")", rt, op.Client, Q(op.Redirect), QL(op.Scopes), QL(op.Granted),
 			coqAurls(op.Aud), coqAurls(op.GAud), Q(op.Subject), Q(op.Challenge), Q(op.Method))
 	case "redeem":
 		return fmt.Sprintf("ORedeem %s %s %s %s %s %s", coqAuth(op.Auth), coqTok(op.Tok), Q(op.Redirect), Q(op.Verifier), Q(s256(op.Verifier)), QL(op.Smuggled))
@@ -891,11 +918,11 @@ func coqOp(op *HOp) string {
 		if op.BodyClient >= 0 {
 			bc = fmt.Sprintf("(Some %d)", op.BodyClient)
 		}
-		return fmt.Sprintf("OPush %s %s %s (Build_authz RCode 0 %s %s [] %s [] \"\" %s %s)", coqAuth(op.Auth), bc, B(op.HasRequestURI), Q(op.Redirect), QL(op.Scopes),
-			coqAurls(op.Aud), Q(op.Challenge), Q(op.Method))
+		return fmt.Sprintf("OPush %s %s %s (Build_authz RCode 0 %s %s [] %s [] \"\" %s %s %s)", coqAuth(op.Auth), bc, B(op.HasRequestURI), Q(op.Redirect), QL(op.Scopes),
+			coqAurls(op.Aud), Q(op.Challenge), Q(op.Method), Q(op.Mode))
 	case "authorize_par":
-		return fmt.Sprintf("OAuthorizePAR %d %s (Build_authz RCode %d %s %s %s %s %s %s %s %s)", op.Client, coqTok(op.Tok), op.Client, Q(op.Redirect), QL(op.Scopes), QL(op.Granted),
-			coqAurls(op.Aud), coqAurls(op.GAud), Q(op.Subject), Q(op.Challenge), Q(op.Method))
+		return fmt.Sprintf("OAuthorizePAR %d %s (Build_authz RCode %d %s %s %s %s %s %s %s %s %s)", op.Client, coqTok(op.Tok), op.Client, Q(op.Redirect), QL(op.Scopes), QL(op.Granted),
+			coqAurls(op.Aud), coqAurls(op.GAud), Q(op.Subject), Q(op.Challenge), Q(op.Method), Q(op.Mode))
 	case "device_auth":
 		return fmt.Sprintf("ODeviceAuth %s %d %s %s", coqAuth(op.Auth), op.BodyClient, QL(op.Scopes), coqAurls(op.Aud))
 	case "decide":
